@@ -81,10 +81,18 @@ pub fn corpus() -> Vec<Input> {
     add("anm12-many-unknown-names", "truanm", "th12", vec![], format!("{ANM_HEAD}script s0 {{ I0 = u1 + u2 + u3 + u4 + u5; goto q1; goto q2; goto q3; q9(); q8(); q7(); }}\n"), None, false);
     add("std12-meta-unknown-fields", "trustd", "th12", vec![], "meta { zzz_a: 1, zzz_b: 2, zzz_c: 3, unknown: 0, anm_path: \"a.anm\", objects: {}, instances: [] }\nscript main { ins_0(); }\n".into(), None, false);
     add("msg06-meta-unknown-fields", "trumsg", "th06", vec![], format!("{}script script0 {{ ins_0(); }}\n", MSG06_HEAD.replacen("meta {", "meta {\n    qq_a: 1, qq_b: 2, qq_c: 3,", 1)), None, false);
+    // -- debug info with several entries of every kind (locals, consts, labels, scripts), several mapfiles' worth of names
+    add("anm12-debuginfo-rich", "truanm", "th12", vec![], format!("const int KA = 1; const int KB = KA + 1; const float KC = 2.5; const int KD = KB * 3;\n{ANM_HEAD}script s0 {{ int a = KA; int b = KB; float c = KC; int d = KD;\nla:\n I0 = a + b + d; F0 = c;\nlb:\n+5:\n if (I0 > 3) goto la;\nlc:\n goto lb; }}\nscript s1 {{ int x = 1; int y = 2; I1 = x + y;\nld:\n goto ld; }}\nscript s2 {{ const int KE = 9; I2 = KE; }}\n"), None, true);
+    add("ecl08-debuginfo-rich", "truecl", "th08", vec![], "const int KA = 1; const int KB = 2; const float KC = 1.5;\nvoid sub0(int a, int b, float x) {\n    int p = a + KA; int q = b + KB; float r = x * KC;\nl0:\n    I0 = p + q; F0 = r;\n    if (I0 < 10) goto l0;\nl1:\n}\nvoid sub1() { int u = 3:4:5:6; I1 = u; sub0(1, 2, 1.0); }\nvoid sub2() { float w = 2.0; F1 = w; }\nscript timeline0 { ins_9(3); }\nscript timeline1 { ins_9(4); }\n".into(), None, true);
+    add("msg06-debuginfo-rich", "trumsg", "th06", vec![], format!("const int KA = 3; const int KB = 4;\n{MSG06_HEAD}script script0 {{ ins_1(KA, KB);\nl0:\n ins_3(0, 0, \"a\");\n+5:\nl1:\n ins_0(); }}\nscript script1 {{ ins_1(KB, KA); ins_0(); }}\n"), None, true);
+    add("anm12-enum-names-on-decompile", "truanm", "th12", vec![], format!("{ANM_HEAD}script s0 {{ ins_9001(1); ins_9001(2); ins_9002(1); ins_9002(5); ins_9003(1, 5); AA = 3; I1 = BB; }}\n"),
+        Some("!anmmap\n!enum(name=\"Alpha\")\n1 a_one\n2 a_two\n3 a_three\n!enum(name=\"Beta\")\n1 b_one\n5 b_five\n6 b_six\n!ins_signatures\n9001 S(enum=\"Alpha\")\n9002 S(enum=\"Beta\")\n9003 S(enum=\"Alpha\")S(enum=\"Beta\")\n!ins_names\n9001 takeAlpha\n9002 takeBeta\n9003 takeBoth\n!gvar_names\n10000 AA\n10001 BB\n10002 CC\n!gvar_types\n10000 $\n10001 $\n10002 $\n"), true);
+    add("ecl07-many-warnings-decompile", "truecl", "th07", vec![], "void sub0() {\n    ins_9001(@blob=\"01000000 02\");\n    ins_9002(@blob=\"01000000 02000000 03\");\n    ins_9003(@blob=\"0100\");\n    ins_9004(@blob=\"05000000\");\n}\nscript timeline0 {}\n".into(),
+        Some("!eclmap\n!ins_signatures\n9001 S\n9002 SS\n9003 S\n9004 f\n"), true);
     v
 }
 
-struct RunOut { status: i32, stdout: Vec<u8>, stderr: Vec<u8>, out_file: Option<Vec<u8>> }
+struct RunOut { status: i32, stdout: Vec<u8>, stderr: Vec<u8>, out_file: Option<Vec<u8>>, dbg_file: Option<Vec<u8>> }
 
 fn shim_path() -> std::path::PathBuf { verif_root().join("target/libverif_seed.so") }
 
@@ -99,7 +107,7 @@ fn run_one(input: &Input, dir: &std::path::Path, seed: u64, decompile_bytes: Opt
     match decompile_bytes {
         None => {
             std::fs::write(dir.join("in.spec"), &input.source).unwrap();
-            args.extend(["compile".into(), "-g".into(), input.game.into(), "in.spec".into(), "-o".into(), "out.bin".into()]);
+            args.extend(["compile".into(), "-g".into(), input.game.into(), "in.spec".into(), "-o".into(), "out.bin".into(), "--output-debug-info".into(), "dbg.json".into()]);
             out_name = Some("out.bin");
         },
         Some(b) => {
@@ -111,9 +119,11 @@ fn run_one(input: &Input, dir: &std::path::Path, seed: u64, decompile_bytes: Opt
     for e in &input.extra { args.push(e.to_string()); }
     if input.mapfile.is_some() { args.push("-m".into()); args.push("map.txt".into()); }
     let _ = std::fs::remove_file(dir.join("out.bin"));
+    let _ = std::fs::remove_file(dir.join("dbg.json"));
     r = run_cli_in(&args, &env, dir);
     let out_file = out_name.and_then(|n| std::fs::read(dir.join(n)).ok());
-    RunOut { status: r.status, stdout: r.stdout, stderr: r.stderr, out_file }
+    let dbg_file = if decompile_bytes.is_none() { std::fs::read(dir.join("dbg.json")).ok() } else { None };
+    RunOut { status: r.status, stdout: r.stdout, stderr: r.stderr, out_file, dbg_file }
 }
 
 fn run_cli_in(args: &[String], env: &[(&str, String)], cwd: &std::path::Path) -> drive::CliOut {
@@ -174,7 +184,7 @@ pub fn run(tier: &str) -> Report {
         let Some((runs, again, dec_runs)) = r else { rep.cap_hit = Some("wall cap".into()); continue; };
         let input = &inputs[i];
         let first = &runs[0].2;
-        if again.status != first.status || again.stdout != first.stdout || again.stderr != first.stderr || again.out_file != first.out_file {
+        if again.status != first.status || again.stdout != first.stdout || again.stderr != first.stderr || again.out_file != first.out_file || again.dbg_file != first.dbg_file {
             rep.machinery_errors.push(format!("input {}: two runs with the SAME seed differ: uncaptured nondeterminism", input.name));
         }
         for (phase, group) in [("compile", &runs), ("decompile", &dec_runs)] {
@@ -182,19 +192,50 @@ pub fn run(tier: &str) -> Report {
             rep.states += 1;
             let n_diag = String::from_utf8_lossy(&group[0].2.stderr).lines().filter(|l| l.starts_with("warning") || l.starts_with("error")).count();
             if n_diag >= 2 { rep.nontrivial += 1; }
-            let mut distinct: BTreeMap<(i32, Vec<u8>, Vec<u8>, Option<Vec<u8>>), Vec<u64>> = BTreeMap::new();
+            let mut distinct: BTreeMap<(i32, Vec<u8>, Vec<u8>, Option<Vec<u8>>, Option<Vec<u8>>), Vec<u64>> = BTreeMap::new();
             for (_, s, o) in group.iter() {
                 rep.evaluations += 1; rep.transitions += 1;
-                distinct.entry((o.status, o.stdout.clone(), o.stderr.clone(), o.out_file.clone())).or_default().push(*s);
+                distinct.entry((o.status, o.stdout.clone(), o.stderr.clone(), o.out_file.clone(), o.dbg_file.clone())).or_default().push(*s);
             }
             rep.outcome(&format!("{phase}:{}", if distinct.len() == 1 { "deterministic" } else { "VARIES" }));
             if distinct.len() > 1 {
                 let variants: Vec<_> = distinct.iter().map(|(k, seeds)| json!({"seeds": seeds, "status": k.0, "stderr_head": String::from_utf8_lossy(&k.2).lines().filter(|l| l.starts_with("warning") || l.starts_with("error") || l.contains("│")).take(12).collect::<Vec<_>>() })).collect();
-                let what = if distinct.keys().map(|k| &k.3).collect::<BTreeSet<_>>().len() > 1 { "output-file" } else if distinct.keys().map(|k| &k.1).collect::<BTreeSet<_>>().len() > 1 { "stdout" } else if distinct.keys().map(|k| k.0).collect::<BTreeSet<_>>().len() > 1 { "exit-status" } else { "diagnostic-order" };
+                let what = if distinct.keys().map(|k| &k.3).collect::<BTreeSet<_>>().len() > 1 { "output-file" } else if distinct.keys().map(|k| &k.4).collect::<BTreeSet<_>>().len() > 1 { "debug-info-file" } else if distinct.keys().map(|k| &k.1).collect::<BTreeSet<_>>().len() > 1 { "stdout" } else if distinct.keys().map(|k| k.0).collect::<BTreeSet<_>>().len() > 1 { "exit-status" } else { "diagnostic-order" };
                 rep.fail(format!("C19:{}:{}:{}", what, phase, input.name), json!({"input": input.name, "phase": phase, "tool": input.tool, "game": input.game, "source": input.source, "mapfile": input.mapfile, "n_variants": distinct.len(), "variants": variants}));
             }
         }
         if i % 4 == 0 { rep.sample(json!({"input": input.name, "tool": input.tool, "game": input.game, "source_head": input.source.chars().take(160).collect::<String>()})); }
+    }
+    // ---------- bundled game files: decompile (and ANM extract listing) under every seed
+    {
+        let files = crate::c01::bundled_seeds();
+        let idx: Vec<usize> = (0..files.len()).collect();
+        let results = par_map(&idx, Some(deadline), |_, &i| {
+            let f = &files[i];
+            let dir = base.join(format!("bundled-{i}"));
+            let _ = std::fs::create_dir_all(&dir);
+            std::fs::write(dir.join("in.bin"), &f.bytes).unwrap();
+            let mut outs: BTreeMap<(i32, Vec<u8>, Vec<u8>), Vec<u64>> = BTreeMap::new();
+            for &s in &seeds {
+                let env = vec![("LD_PRELOAD", shim_path().to_string_lossy().to_string()), ("VERIF_HASH_SEED", s.to_string())];
+                let mut args = f.tool.cli("decompile"); args.push("in.bin".into());
+                let r = run_cli_in(&args, &env, &dir);
+                outs.entry((r.status, r.stdout, r.stderr)).or_default().push(s);
+            }
+            outs
+        });
+        for (i, r) in results.into_iter().enumerate() {
+            let Some(outs) = r else { rep.cap_hit = Some("wall cap".into()); continue; };
+            rep.states += 1; rep.evaluations += seeds.len() as u64; rep.transitions += seeds.len() as u64;
+            let n_diag = outs.keys().next().map(|k| String::from_utf8_lossy(&k.2).lines().filter(|l| l.starts_with("warning") || l.starts_with("error")).count()).unwrap_or(0);
+            if n_diag >= 2 { rep.nontrivial += 1; }
+            rep.outcome(&format!("bundled-decompile:{}", if outs.len() == 1 { "deterministic" } else { "VARIES" }));
+            if outs.len() > 1 {
+                let what = if outs.keys().map(|k| &k.1).collect::<BTreeSet<_>>().len() > 1 { "stdout" } else if outs.keys().map(|k| k.0).collect::<BTreeSet<_>>().len() > 1 { "exit-status" } else { "diagnostic-order" };
+                rep.fail(format!("C19:{}:decompile:bundled:{}", what, files[i].label), json!({"bundled": files[i].label, "n_variants": outs.len(), "seeds": outs.values().collect::<Vec<_>>()}));
+            }
+        }
+        rep.extra.insert("bundled_files_decompiled".into(), json!(files.len()));
     }
     rep.exhaustive = true;
     rep.bound_completed = format!("{} inputs x (compile{}) x seeds {:?}..{}", inputs.len(), ", decompile of the product", seeds[0], seeds.len());
@@ -205,6 +246,21 @@ pub fn run(tier: &str) -> Report {
 }
 
 pub fn replay(detail: &serde_json::Value) -> i32 {
+    if let Some(lbl) = detail["bundled"].as_str() {
+        let Some(f) = crate::c01::bundled_seeds().into_iter().find(|s| s.label == lbl) else { println!("unknown bundled file"); return 2; };
+        let dir = drive::scratch_dir().join("c19-replay-b"); let _ = std::fs::create_dir_all(&dir);
+        std::fs::write(dir.join("in.bin"), &f.bytes).unwrap();
+        let mut outs = BTreeSet::new();
+        for s in 0..8u64 {
+            let env = vec![("LD_PRELOAD", shim_path().to_string_lossy().to_string()), ("VERIF_HASH_SEED", s.to_string())];
+            let mut args = f.tool.cli("decompile"); args.push("in.bin".into());
+            let r = run_cli_in(&args, &env, &dir);
+            outs.insert((r.status, r.stdout, r.stderr));
+        }
+        drive::cleanup_scratch();
+        println!("{} distinct outcomes over 8 seeds", outs.len());
+        return if outs.len() > 1 { 1 } else { 0 };
+    }
     let name = detail["input"].as_str().unwrap_or("");
     let Some(input) = corpus().into_iter().find(|i| i.name == name) else { println!("unknown input"); return 2; };
     let base = drive::scratch_dir().join("c19-replay");
@@ -212,7 +268,7 @@ pub fn replay(detail: &serde_json::Value) -> i32 {
     for s in 0..8u64 {
         let o = run_one(&input, &base.join("w"), s, None);
         println!("seed {s}: status {} stderr md5-ish len {}", o.status, o.stderr.len());
-        outs.insert((o.status, o.stdout, o.stderr, o.out_file));
+        outs.insert((o.status, o.stdout, o.stderr, o.out_file, o.dbg_file));
     }
     drive::cleanup_scratch();
     println!("{} distinct outcomes over 8 seeds", outs.len());
